@@ -119,7 +119,7 @@ def guess_country(number):
     for which it is valid. This returns lower case codes and returns gr (not
     el) for Greece."""
     return [cc
-            for cc in MEMBER_STATES
+            for cc in sorted(MEMBER_STATES)
             if _get_cc_module(cc).is_valid(number)]
 
 
